@@ -141,6 +141,19 @@ pub fn block(name: &str, c: &AlphaCtx, out: &mut Vec<Op>) {
                 out.push(Op::new(OpK::DrainFilter, k, iter_arg(6, MODE_CONSUME, 0)));
             }
         }
+        // shaping calls composed to depth 2-3 for the second operand of pair worlds
+        "deepshape" | "sdeepshape" => {
+            let set = name == "sdeepshape";
+            for p in [0u64, 2, 3, 4, 10] {
+                out.push(Op::arg(OpK::Retain, p));
+            }
+            out.push(Op::k(OpK::ShrinkToFit));
+            out.push(Op::arg(OpK::Reserve, len.max(1)));
+            let rm = if set { OpK::SRemove } else { OpK::Remove };
+            for k in [c.classes.old_next, c.classes.main_a].into_iter().flatten() {
+                out.push(Op::key(rm, k));
+            }
+        }
         "bulk" => {
             out.push(Op::k(OpK::IterMutWrite));
             out.push(Op::k(OpK::ValuesMutWrite));
